@@ -225,7 +225,14 @@ def run_case(scn, drv):
     if scn.get('_stream') == 'splitstorage':
         case = scn['case']
         r = SS.run_impl(case)
-        req = SS.request(case, r)
+        try:
+            req = SS.request(case, r)
+        except Exception as e:
+            if type(e).__name__ in ('AmbiguousTimeError', 'NonExistentTimeError'):
+                # an instant of the asset's data that does not exist / exists twice on the wall clock of the grid's zone cannot be
+                # handed to the model unambiguously: the case is not judged (no statement about the code)
+                return {'evaluated': 0, 'nontrivial': False, 'features': ['stream:splitstorage', 'skipped:wall-clock-instant-ambiguous'], 'disagreements': [], 'violations': []}
+            raise
         mres = drv.ask(req)
         dis = SS.compare(case, r, mres, req)
         vio = SS.oracle(case, r, mres, drv)
@@ -413,7 +420,16 @@ def run_case(scn, drv):
     try:
         pf.solve_rec(rs)
     except Exception as e:
-        viol('optimising / reading the split problem raises %s (%s)' % (type(e).__name__, str(e)[:150]), what='raises', err=impl.err_class(e))
+        # finding F-14l is identified by its cause: an interval whose mapping has no row at all (variables, but none mapped) in
+        # front of the others makes the step numbers of the joint mapping floats, and Asset.dcf indexes an array with them
+        _ftm = False
+        try:
+            _ops = getattr(rs['op'], 'ops', [])
+            _ftm = (type(e).__name__ == 'IndexError' and 'time_step' in rs['op'].mapping.columns and str(rs['op'].mapping['time_step'].dtype).startswith('float')
+                    and any(len(o.mapping) == 0 and len(o.c) > 0 for o in _ops) and not isinstance(rs.get('res'), str))
+        except Exception:
+            _ftm = False
+        viol('optimising / reading the split problem raises %s (%s)' % (type(e).__name__, str(e)[:150]), what='raises', err=impl.err_class(e), float_time_step_after_unmapped_interval=bool(_ftm))
         return r
     r['evaluated'] += 1
     if scn.get('shortcut'):
